@@ -16,10 +16,21 @@ from vf.world import World, sym_len
 WHEN = ["file_data", "eof_ack", "finished"]
 
 
-def _drive_to(ctx, rig, cfg, when, k_fd, M):
+def put_options():
+    """a put request carrying every kind of Metadata option"""
+    from cfdppy.mib import FaultHandlerCode
+    from spacepackets.cfdp import (ConditionCode, FaultHandlerOverrideTlv, FileStoreRequestTlv, FlowLabelTlv,
+                                   MessageToUserTlv)
+    from spacepackets.cfdp.tlv import FilestoreActionCode
+    return dict(fs_requests=[FileStoreRequestTlv(FilestoreActionCode.CREATE_FILE_SNM, "/dst/x")],
+                overrides=[FaultHandlerOverrideTlv(ConditionCode.FILE_CHECKSUM_FAILURE, FaultHandlerCode.IGNORE_ERROR)],
+                flow_label=FlowLabelTlv(b"fl"), msgs=[MessageToUserTlv(b"hello")])
+
+
+def _drive_to(ctx, rig, cfg, when, k_fd, M, options=False):
     """run the sender until the chosen point; returns the calls so far"""
     calls = []
-    o = rig.put()
+    o = rig.put(**(put_options() if options else {}))
     if o.exc is not None or o.ret is not True:
         raise o.exc or AssertionError("put refused")
     if when == "file_data":
@@ -49,12 +60,12 @@ def _drive_to(ctx, rig, cfg, when, k_fd, M):
     return calls
 
 
-def harness(ctx, M, R, when, k_fd=0, second_nak=False):
+def harness(ctx, M, R, when, k_fd=0, second_nak=False, options=False):
     w = World(ctx)
     ids = Ids(2, 2)
     rig, cfg = c07.setup(ctx, w, ids, M, modes=(ACK,), cktypes=[ChecksumType.CRC_32], fixed_closure=False)
     S, seg = cfg["S"], cfg["seg"]
-    calls = _drive_to(ctx, rig, cfg, when, k_fd, M)
+    calls = _drive_to(ctx, rig, cfg, when, k_fd, M, options)
     progress = rig.h.progress
     step_before = rig.h.step
     md0 = calls[0].pdus[0]
@@ -131,6 +142,10 @@ def harness(ctx, M, R, when, k_fd=0, second_nak=False):
                               m.checksum_type == md0.checksum_type,
                               bool(m.closure_requested) == bool(md0.closure_requested),
                               m.transaction_seq_num.value == md0.transaction_seq_num.value))
+                ctx.prop("metadata_options_are_original",
+                         [bytes(t.pack()) for t in (m.options or [])] == [bytes(t.pack()) for t in (md0.options or [])],
+                         lambda: {"sig": f"re-sent Metadata PDU carries {len(m.options or [])} options, "
+                                         f"the original {len(md0.options or [])}"})
                 idx += 1
                 continue
             pos = a
@@ -240,6 +255,11 @@ def plan(tier):
     # a NAK while file data is being sent and a second one after the EOF (two different steps)
     specs.append(Spec("two-naks/file_data-then-eof_ack/R=1/M=3", "vf.harness.c08:h_two_steps", {"M": 3},
                       twin_share=0.1))
+    # put request with every kind of Metadata option; two NAKs (the Metadata PDU is rebuilt twice)
+    for when in ("eof_ack", "finished"):
+        specs.append(Spec(f"two-naks/with-options/{when}/R=1/M=2", "vf.harness.c08:harness",
+                          {"M": 2, "R": 1, "when": when, "second_nak": True, "options": True}, twin_share=0.1,
+                          obligations=["metadata_rerequested"]))
     if tier == "thorough":
         for when in WHEN:
             specs.append(Spec(f"two-naks/{when}/R=1/M=3", "vf.harness.c08:harness",
